@@ -117,10 +117,22 @@ func collect(ch <-chan int, d time.Duration) (vs []int, closed bool) {
 			}
 			vs = append(vs, v)
 		case <-time.After(d):
+			timeouts++
 			return vs, false
 		}
 	}
 	return vs, false
+}
+
+// Real-time runs (modes 0 and 2) wait this long for a value that never comes: generous while nothing ever
+// timed out (a loaded machine must not look like a lost value), short once the code has shown that it hangs.
+var timeouts int
+
+func patience() time.Duration {
+	if timeouts >= 3 {
+		return 300 * time.Millisecond
+	}
+	return 15 * time.Second
 }
 
 func runFork(t *testing.T, c *Case, rng *rand.Rand) {
@@ -128,7 +140,7 @@ func runFork(t *testing.T, c *Case, rng *rand.Rand) {
 	switch c.Mode {
 	case 0:
 		ctx, cancel := context.WithCancel(context.Background())
-		c.Observed, c.Closed = collect(fork.Fold(ctx, c.Par, pipe.Seq(c.Input...), m), 2*time.Second)
+		c.Observed, c.Closed = collect(fork.Fold(ctx, c.Par, pipe.Seq(c.Input...), m), patience())
 		cancel()
 	case 1:
 		// goroutines of the library that never exit make synctest.Test panic after the observation
@@ -164,7 +176,7 @@ func runFork(t *testing.T, c *Case, rng *rand.Rand) {
 			}
 			close(in)
 		}()
-		c.Observed, c.Closed = collect(fork.Fold(ctx, c.Par, in, m), 2*time.Second)
+		c.Observed, c.Closed = collect(fork.Fold(ctx, c.Par, in, m), patience())
 		cancel()
 	default:
 		panic("mode")
@@ -180,7 +192,7 @@ func runCase(t *testing.T, c *Case, rng *rand.Rand) {
 	}
 	c.Loop = acc
 	ctx, cancel := context.WithCancel(context.Background())
-	c.PFold, c.PClosed = collect(pipe.Fold(ctx, pipe.Seq(c.Input...), m), 2*time.Second)
+	c.PFold, c.PClosed = collect(pipe.Fold(ctx, pipe.Seq(c.Input...), m), patience())
 	cancel()
 	runFork(t, c, rng)
 }
